@@ -55,6 +55,10 @@ pub fn check(tier: Tier) -> Check {
     parts.push(Part::new("C05/ops", json!({"depth": tier.pick(4, 5), "nomatch": true}), 1, tier.pick(40, 600)));
     // acknowledgements whose content (reason string, user properties) takes more than 127 bytes
     parts.push(Part::new("C05/ops", json!({"depth": tier.pick(4, 5), "longtag": true}), 0, tier.pick(40, 600)));
+    // a sliding window of 2 .. 8 outstanding operations over 60 rounds (short-form and long-form acks)
+    parts.push(Part::new("C05/sliding", json!({}), 0, 120));
+    // acknowledgements without content: failing ones then take the reason-only form (remaining length 3)
+    parts.push(Part::new("C05/ops", json!({"depth": tier.pick(5, 6), "untagged": true}), 0, tier.pick(40, 600)));
     // two operations outstanding whose packet identifiers differ in exactly one bit
     parts.push(Part::new("C05/bits", json!({}), 0, 120));
     // value flavour (DESIGN 4): the same exploration with requests / inbound messages of unusual content
@@ -273,7 +277,79 @@ fn bits(name: String, params: Value) -> Scenario {
     })
 }
 
+/// A sliding window: w operations outstanding for 60 rounds; every round one of them (the oldest, the
+/// youngest, one in the middle - by turns) is acknowledged, with success or a failing reason, in short
+/// or long form, and a new one is started. The client's bookkeeping shrinks at one end and grows at the
+/// other (ring buffers wrap, indices shift); every operation completes on its own acknowledgement.
+pub fn sliding(prop: &'static str, name: String, params: Value) -> Scenario {
+    Box::new(move |chz, ex| {
+        let w = [2usize, 3, 4, 5, 8][chz.choose(5)];
+        let pubs_only = chz.choose(2) == 1;
+        let tagged = chz.choose(2) == 1;
+        let mut sys = Sys::new(prop, &name, chz);
+        sys.params = params.clone();
+        sys.m.check_client_acks = false;
+        sys.bring_up(vec![]);
+        let specs = op_specs();
+        let mut open: Vec<usize> = vec![];
+        let mut started = 0usize;
+        let mut start = |sys: &mut Sys, open: &mut Vec<usize>, started: &mut usize| {
+            let sp = if pubs_only { specs[*started % 2].clone() } else { specs[*started % specs.len()].clone() };
+            *started += 1;
+            sys.apply(Ev::Start(sp));
+            open.push(sys.m.ops.len() - 1);
+        };
+        for _ in 0..w {
+            start(&mut sys, &mut open, &mut started);
+        }
+        for round in 0..60usize {
+            if sys.dead {
+                break;
+            }
+            let k = match round % 3 {
+                0 => open.len() - 1,
+                1 => open.len() / 2,
+                _ => 0,
+            };
+            let i = open[k];
+            if matches!(sys.m.ops[i].spec, OpSpec::Ping) {
+                // (pings complete in issue order: the oldest open ping is the one that completes)
+                sys.apply(Ev::Deliver(SPacket::Pingresp));
+                let done: Vec<usize> = open.iter().copied().filter(|&j| sys.m.ops[j].st == St::Done || matches!(sys.m.ops[j].st, St::Completing(_))).collect();
+                open.retain(|j| !done.contains(j));
+            } else {
+                let tag = if tagged { format!("r{}", i) } else { String::new() };
+                let fail = round % 4 == 3;
+                let mut guard = 0;
+                loop {
+                    let reason = match (&sys.m.ops[i].st, fail) {
+                        (St::AwaitComp, true) => 0x92,
+                        (_, true) => 0x80,
+                        _ => 0,
+                    };
+                    let Some(a) = sys.ack_for(i, reason, &tag) else { break };
+                    sys.apply(Ev::Deliver(a));
+                    guard += 1;
+                    if sys.dead || guard > 3 {
+                        break;
+                    }
+                }
+                open.retain(|j| *j != i);
+            }
+            while open.len() < w && !sys.dead {
+                start(&mut sys, &mut open, &mut started);
+            }
+        }
+        sys.finish();
+        sys.events = vec![format!("sliding window of {} operations ({}), 60 rounds, acknowledgements {}", w, if pubs_only { "publishes" } else { "all kinds" }, if tagged { "with content" } else { "in short form" })];
+        sys.report(ex, &["puback", "pubcomp", "suback", "unsuback", "pingresp", "pubrec-fail"]);
+    })
+}
+
 pub fn scenario(name: &str, params: &Value) -> Scenario {
+    if name == "C05/sliding" {
+        return sliding("C05", name.to_string(), params.clone());
+    }
     if name == "C05/expired" {
         return super::c17::scenario_for("C05", name, params);
     }
@@ -328,7 +404,9 @@ pub fn scenario(name: &str, params: &Value) -> Scenario {
                     }
                 }
             }
-            if params["nomatch"].as_bool().unwrap_or(false) || params["longtag"].as_bool().unwrap_or(false) {
+            if params["untagged"].as_bool().unwrap_or(false) {
+                evs.extend(super::common::broker_acks_ext(&sys, true, false, false));
+            } else if params["nomatch"].as_bool().unwrap_or(false) || params["longtag"].as_bool().unwrap_or(false) {
                 // also the success reason that is not zero (0x10 "no matching subscribers"): a PUBACK /
                 // PUBREC with it is an ordinary success - the QoS 2 exchange goes on to its PUBCOMP
                 evs.extend(super::common::broker_acks_ext(&sys, true, true, true));
